@@ -97,20 +97,31 @@ fn ref_replace(s: &str, a: &str, b: &str, first_only: bool) -> String {
     out
 }
 
-/// acceptable results (one per reading of "character")
+/// acceptable results: "character" may be read as scalar value or as grapheme
+/// cluster independently for the length decision, the ellipsis length and the cut
+/// (bytes never); a negative limit either truncates to the ellipsis (Shopify) or
+/// leaves the input alone (the behaviour the repository's own tests pin)
 fn ref_truncate(s: &str, n: i64, e: &str) -> Vec<String> {
     let mut v = Vec::new();
-    for g in [false, true] {
-        let su = units(s, g);
-        let eu = units(e, g);
-        let n0 = n.max(0) as usize;
-        if su.len() <= n0 {
-            v.push(s.to_string());
-        } else {
-            let l = n0.saturating_sub(eu.len());
-            v.push(format!("{}{e}", su[..l].concat()));
+    if n < 0 {
+        v.push(s.to_string());
+    }
+    for gd in [false, true] {
+        for ge in [false, true] {
+            for gc in [false, true] {
+                let n0 = n.max(0) as usize;
+                if units(s, gd).len() <= n0 {
+                    v.push(s.to_string());
+                } else {
+                    let l = n0.saturating_sub(units(e, ge).len());
+                    let su = units(s, gc);
+                    v.push(format!("{}{e}", su[..l.min(su.len())].concat()));
+                }
+            }
         }
     }
+    v.sort();
+    v.dedup();
     v
 }
 
